@@ -186,10 +186,19 @@ func c18Exec(k c18Case) (*sched.Result, []explore.Finding, string) {
 					panic("reference HMAC disagrees with crypto/hmac")
 				}
 				sums++
-				keptSums = append(keptSums, kept{got: s.h.Sum(nil), want: want, step: i})
 				if !bytes.Equal(got[:2], prefix) || !bytes.Equal(got[2:], want) {
 					finds = append(finds, explore.Finding{Key: "wrong-digest", Detail: fmt.Sprintf("step %d %v: Sum = %x, RFC 2104 HMAC(key %dB, %dB written) = %x", i, op, got[2:], len(s.key), len(s.written), want)})
 				}
+				// the caller reuses the buffer the first Sum returned (truncates the tag, clears it): a second Sum with
+				// nothing written in between is the same digest again
+				for j := range got {
+					got[j] = 0xEE
+				}
+				again := s.h.Sum(nil)
+				if !bytes.Equal(again, want) {
+					finds = append(finds, explore.Finding{Key: "wrong-digest", Detail: fmt.Sprintf("step %d %v: a second Sum, after the caller overwrote the slice the first one returned, = %x, want %x", i, op, again, want)})
+				}
+				keptSums = append(keptSums, kept{got: again, want: want, step: i})
 			case "reset":
 				s.h.Reset()
 				s.written = s.written[:0]
